@@ -339,6 +339,22 @@ def run(ctx):
         assign_names(t)
         docs.append(render(t))
     impl = qml.run_docs(vh, docs)
+    # every fourth document is ALSO translated the way the command line does it: five documents through one BuildContext (the generated names and the ids repeat
+    # from document to document); what is judged below is that result, and it has to be the result of the document translated alone
+    if not ctx.replay:
+        sel = [i for i in range(len(docs)) if i % 4 == 3]
+        shared = qml.run_docs_shared(vh, [docs[i] for i in sel], "c11", group=5)["forward"]
+        for i, r in zip(sel, shared):
+            a = impl[i]
+            if isinstance(a, dict) and isinstance(r, dict) and a.get("ui") is not None and r.get("ui") is not None:
+                ua, ub = a["ui"].replace("<class>MyType</class>", ""), re.sub(r"<class>Doc\d+</class>", "", r["ui"])
+                if ua != ub or sorted((d["msg"], d["start"]) for d in a["diags"]) != sorted((d["msg"], d["start"]) for d in r["diags"]):
+                    ctx.violation("a document translated after others through one BuildContext gives a different form than translated alone",
+                                  {"qml": docs[i], "translated_before": [docs[j] for j in sel[(sel.index(i) // 5) * 5: sel.index(i)]], "impl_output": [a.get("ui"), r.get("ui")],
+                                   "theorem_or_correspondence": "S: the form is a function of the document (C11 judged on the shared-context result)"})
+                    continue
+            impl[i] = r
+            ctx.dist("translated-in-a-shared-context")
     terms, idx = [], []
     kinds_seen = {}
     for i, (t, r) in enumerate(zip(trees, impl)):
